@@ -126,6 +126,22 @@ def fixed_case(rng, base, idx):
         cons = [{'current': '2022-01-12 12:00:00', 'days': 0, 'hours': 24}]
         policy = rng.choice(['ignore', 'replace', 'backslashreplace'])
         cls, glob = 'invalid-bytes-on-first-in-window-line', 0
+    elif idx == 3:
+        # invalid bytes in one of TWO files under a lenient policy (the
+        # worker path must honour the policy like the in-process path)
+        data = (b'2022-01-10 00:00:00 alpha 1\n'
+                b'2022-01-10 01:00:00 alpha \xff\xfe 2\n'
+                b'2022-01-10 02:00:00 alpha 3\n')
+        policy = rng.choice(['ignore', 'replace', 'backslashreplace'])
+        skrun.materialise(d, {'x.log': data, 'y.log': G.gen_log(rng, 5)})
+        run = {'global': None, 'decode_errors': policy,
+               'max_parallel_tasks': 4,
+               'adds': [[0, 'x.log', True], [0, 'y.log', True]],
+               'new_searcher': True}
+        recipe = {'dir': d, 'constraints': [], 'defs': [sdef], 'runs': [run]}
+        return recipe, {'class': 'invalid-bytes-two-files-lenient',
+                        'data': data, 'policy': policy, 'wide': False,
+                        'global': False, 'nfiles': 2}
     else:
         # more lines than the progress-report interval of the read loop
         data = b''.join(b'alpha %d\n' % i if i % 1000 == 0 else b'x\n'
@@ -140,7 +156,7 @@ def fixed_case(rng, base, idx):
 
 
 def make_case(rng, base, idx, big):
-    if idx in (1, 2):
+    if idx in (1, 2, 3):
         return fixed_case(rng, base, idx)
     data, cls = hostile(rng, big)
     if data[:2] == b'\x1f\x8b':
